@@ -38,6 +38,11 @@ ASSUMPTIONS = [
     'a driver killed by a signal itself is outside the property (it speaks of failing steps)',
 ]
 
+# cc1 write errors on the output (ENOSPC: `-o /dev/full`).  None: cases not generated; 'fixed': ordinary cases (the
+# driver must exit non-zero); 'known': generated and tagged with the known-finding id below.
+WRITE_ERROR_CASES = None
+WRITE_ERROR_KNOWN_ID = 'C14-write-error-ignored'
+
 SIGNUM = {'SEGV': 11, 'KILL': 9, 'TERM': 15, 'ABRT': 6}
 JUNK = b'JUNK'
 
@@ -58,6 +63,11 @@ if [ -n "$spec" ]; then
       out=""; prev=""
       for a in "$@"; do [ "$prev" = "-o" ] && out="$a"; prev="$a"; done
       [ -n "$out" ] && printf 'JUNK' > "$out"
+    fi
+    if [ "$wrote" = "r" ]; then
+      out=""; prev=""
+      for a in "$@"; do [ "$prev" = "-o" ] && out="$a"; prev="$a"; done
+      [ -n "$out" ] && rm -f "$out"
     fi
     echo fired > "$d/$prog.fired"
     if [ "$how" = "sig" ]; then ulimit -c 0; kill -"$num" $$; sleep 10; fi
@@ -166,7 +176,7 @@ class Harness:
             env.pop(k, None)
         f = case.get('fault')
         if f and f['via'] == 'shim':
-            env['C14_FAULT_' + f['prog']] = f"{f['k']}:{f['how']}:{f['num']}:{'w' if f.get('wrote') else 'n'}"
+            env['C14_FAULT_' + f['prog']] = f"{f['k']}:{f['how']}:{f['num']}:{f.get('leaves', 'n')}"
         if case.get('mkfail') is not None:
             env['C14_MKFAIL'] = str(case['mkfail'])
         return env
@@ -217,8 +227,11 @@ class Harness:
             for fn in fs:
                 p = os.path.join(root, fn)
                 rel = os.path.relpath(p, wd)
-                st = os.stat(p)
-                out[rel] = (st.st_mtime_ns, st.st_size, hashlib.sha1(open(p, 'rb').read()).hexdigest())
+                try:
+                    st = os.stat(p)
+                    out[rel] = (st.st_mtime_ns, st.st_size, hashlib.sha1(open(p, 'rb').read()).hexdigest())
+                except FileNotFoundError:
+                    pass        # a concurrent driver's child (ld) unlinks its output before rewriting it
         return out
 
     def run_real(self, case, wd=None, ctl=None, prepared=None, start_barrier=None):
@@ -361,6 +374,11 @@ class Harness:
             files.append(f"{rel}={cls}[{','.join(map(str, mk))}]")
         obs['temps'] = created
         obs['leftover'] = [t for t in created if os.path.lexists(t)]
+        for t in obs['leftover']:           # recorded; do not litter /tmp
+            try:
+                os.unlink(t)
+            except OSError:
+                pass
         obs['trace'] = trace
         obs['line'] = f"status={obs['rc']} trace={'|'.join(trace)} files={';'.join(files)}"
         obs['changed'] = sorted(r for r in obs['post'] if obs['pre'].get(r) != obs['post'][r]) + \
@@ -385,7 +403,7 @@ class Harness:
         faults = '-'
         f = case.get('fault')
         if f:
-            faults = f"{f['prog']}:{f['k']}:{f['how']}:{f['num']}:{'w' if f.get('wrote') else 'n'}"
+            faults = f"{f['prog']}:{f['k']}:{f['how']}:{f['num']}:{f.get('leaves', 'n')}"
         mk = case.get('mkfail')
         return (f"mode={case['mode']} out={case['out'] or '-'} in={ins} files={fl} faults={faults} "
                 f"mkfail={'-' if mk is None else mk}")
@@ -516,10 +534,12 @@ def fault_variants(case, full):
         counts[prog] += 1
         hows = [('exit', 1), ('exit', 3), ('sig', 11), ('sig', 9)] if full else [('exit', 2), ('sig', 11)]
         for how, num in hows:
-            wrotes = (False, True) if (prog != 'cc1' and full) else ((True,) if prog != 'cc1' and how == 'sig' else (False,))
-            for wrote in wrotes:
+            # what the failing as/ld leaves at its output path: nothing touched / junk / removed (GNU as, ld unlink on error)
+            leaves = ('n', 'w', 'r') if (prog != 'cc1' and full) else (('w',) if prog != 'cc1' and how == 'sig' else
+                                                                        ('r',) if prog != 'cc1' else ('n',))
+            for lv in leaves:
                 c = json.loads(json.dumps(case))
-                c['fault'] = {'prog': prog, 'k': k, 'how': how, 'num': num, 'wrote': wrote, 'via': 'shim', 'unit': idx}
+                c['fault'] = {'prog': prog, 'k': k, 'how': how, 'num': num, 'leaves': lv, 'via': 'shim', 'unit': idx}
                 out.append(c)
         if prog == 'cc1':
             bads = ['syntax', 'codegen', 'pp', 'token', 'missing'] if full else ['codegen', 'missing']
@@ -528,12 +548,12 @@ def fault_variants(case, full):
             for bad in bads:
                 c = json.loads(json.dumps(case))
                 c['inputs'][idx]['bad'] = bad
-                c['fault'] = {'prog': 'cc1', 'k': k, 'how': 'exit', 'num': 1, 'wrote': False, 'via': 'input', 'unit': idx}
+                c['fault'] = {'prog': 'cc1', 'k': k, 'how': 'exit', 'num': 1, 'leaves': 'n', 'via': 'input', 'unit': idx}
                 out.append(c)
         if prog == 'as' and case['inputs'][idx]['kind'] == 's' and full:
             c = json.loads(json.dumps(case))
             c['inputs'][idx]['bad'] = 'missing'
-            c['fault'] = {'prog': 'as', 'k': k, 'how': 'exit', 'num': 1, 'wrote': False, 'via': 'input', 'unit': idx}
+            c['fault'] = {'prog': 'as', 'k': k, 'how': 'exit', 'num': 1, 'leaves': 'r', 'via': 'input', 'unit': idx}   # GNU as unlinks its output on error
             out.append(c)
     # unwritable output: -o into a directory that does not exist (the checks may run as root, so no permission games)
     if case['out'] and steps and steps[0][0] != 'reject':
@@ -541,20 +561,20 @@ def fault_variants(case, full):
         c['out'] = 'nodir/' + case['out']
         last = [s for s in steps if s[0] != 'reject'][-1]
         if case['mode'] in ('E', 'S') and last[0] == 'cc1' and len([s for s in steps if s[0] == 'cc1']) == 1:
-            c['fault'] = {'prog': 'cc1', 'k': 0, 'how': 'exit', 'num': 1, 'wrote': False, 'via': 'outdir', 'unit': last[1]}
+            c['fault'] = {'prog': 'cc1', 'k': 0, 'how': 'exit', 'num': 1, 'leaves': 'n', 'via': 'outdir', 'unit': last[1]}
             out.append(c)
         elif case['mode'] == 'c' and len([s for s in steps if s[0] == 'as']) == 1:
-            c['fault'] = {'prog': 'as', 'k': 0, 'how': 'exit', 'num': 1, 'wrote': False, 'via': 'outdir', 'unit': last[1]}
+            c['fault'] = {'prog': 'as', 'k': 0, 'how': 'exit', 'num': 1, 'leaves': 'n', 'via': 'outdir', 'unit': last[1]}
             out.append(c)
         elif case['mode'] == 'link':
-            c['fault'] = {'prog': 'ld', 'k': 0, 'how': 'exit', 'num': 1, 'wrote': False, 'via': 'outdir', 'unit': None}
+            c['fault'] = {'prog': 'ld', 'k': 0, 'how': 'exit', 'num': 1, 'leaves': 'n', 'via': 'outdir', 'unit': None}
             out.append(c)
     return out
 
 def case_key(case):
     f = case.get('fault')
     return json.dumps([case['mode'], case['out'], [(i['name'], i.get('bad')) for i in case['inputs']],
-                       [f[k] for k in ('prog', 'k', 'how', 'num', 'wrote', 'via')] if f else None, case.get('mkfail'),
+                       [f[k] for k in ('prog', 'k', 'how', 'num', 'leaves', 'via')] if f else None, case.get('mkfail'),
                        sorted(case.get('sentinels', []))])
 
 def describe(case):
@@ -650,15 +670,8 @@ def gen_cases(ctx):
                 c = json.load(open(os.path.join(cdir, fn)))
                 c['tag'] = 'corpus:' + fn
                 cases.append(c)
-    if ctx.thorough:
-        alphabet, maxn = ['c', 's', 'o'], 3
-    else:
-        alphabet, maxn = ['c', 's', 'o'], 2
-    allshapes = list(shapes(maxn, alphabet))
-    if not ctx.thorough:
-        # plus a seeded sample of the three-input shapes
-        three = [s for s in shapes(3, alphabet) if len(s[2]) == 3]
-        allshapes += rng.sample(three, 24)
+    alphabet = ['c', 's', 'o']
+    allshapes = list(shapes(3, alphabet))
     for mode, with_o, kinds in allshapes:
         b = base_case(mode, with_o, kinds, sub=(rng.random() < 0.3))
         ok = dict(b, tag='success')
@@ -666,9 +679,9 @@ def gen_cases(ctx):
             ok = dict(with_sentinels(b), tag='success')
         cases.append(ok)
         fv = fault_variants(with_sentinels(b), ctx.thorough)
-        if not ctx.thorough and len(fv) > 3:
+        if not ctx.thorough and len(fv) > 7:
             # quick: the first cc1 signal fault, one real front-end failure, and two seeded others
-            pick = [x for x in fv if x['fault']['via'] == 'input'][:1] + rng.sample(fv, 3)
+            pick = [x for x in fv if x['fault']['via'] == 'input'][:1] + rng.sample(fv, min(6, len(fv)))
             fv = pick
         for c in fv:
             c['tag'] = 'fault:' + c['fault']['prog'] + ':' + c['fault']['how'] + (':' + c['fault']['via'])
@@ -684,6 +697,15 @@ def gen_cases(ctx):
             for c in fault_variants(b, False):
                 c['tag'] = 'special-fault'
                 cases.append(c)
+    # the output cannot be written although it can be opened (ENOSPC on /dev/full): cc1 must fail, the driver must exit non-zero
+    if WRITE_ERROR_CASES and os.path.exists('/dev/full'):
+        for mode in ('S', 'E'):
+            c = with_sentinels(base_case(mode, False, ('c',)))
+            c['out'] = '/dev/full'
+            c['sentinels'] = ['a.out']
+            c['fault'] = {'prog': 'cc1', 'k': 0, 'how': 'exit', 'num': 1, 'leaves': 'n', 'via': 'devfull', 'unit': 0}
+            c['tag'] = 'write-error'
+            cases.append(c)
     # failing mkstemp (create_tmpfile's error path): every mkstemp call of a few shapes
     for mode, kinds in (('c', ('c', 'c')), ('link', ('c', 's')), ('link', ('c', 'c', 'c'))):
         nt = sum({'c': {'c': 1, 'link': 2}, 's': {'c': 0, 'link': 1}}[k][mode] for k in kinds)
@@ -717,10 +739,18 @@ def run_cases(ctx, corr, H, cases):
             corr.nontrivial.add(case_key(c))
         m = model[i] if i < len(model) else '<missing>'
         viol = oracle(c, o)
+        known = (c.get('fault') or {}).get('via') == 'devfull' and WRITE_ERROR_CASES == 'known'
         for v in viol:
-            corr.violations.append({'what': v, 'input': describe(c), 'case': c, 'expected': 'C14 postcondition',
-                                    'got': {'status': o['rc'], 'trace': o['trace'], 'changed': o['changed'],
-                                            'leftover': o['leftover'], 'stderr': o['stderr'][-300:]}})
+            rec = {'what': v, 'input': describe(c), 'case': c, 'expected': 'C14 postcondition',
+                   'got': {'status': o['rc'], 'trace': o['trace'], 'changed': o['changed'],
+                           'leftover': o['leftover'], 'stderr': o['stderr'][-300:]}}
+            if known:
+                rec['known_id'] = WRITE_ERROR_KNOWN_ID
+                if WRITE_ERROR_KNOWN_ID not in corr.known_hits:
+                    corr.known_hits.append(WRITE_ERROR_KNOWN_ID)
+            corr.violations.append(rec)
+        if known and viol:
+            continue      # the model follows the property here, the code does not: not a tie break
         if m != o['line']:
             corr.disagreements.append({'kind': 'driver trace', 'input': describe(c), 'case': c, 'model': m, 'impl': o['line'],
                                        'stderr': o['stderr'][-300:]})
@@ -732,7 +762,7 @@ def run_cases(ctx, corr, H, cases):
 def concurrency(ctx, corr, H):
     """N drivers at once in ONE directory, disjoint outputs, some with injected faults; each must behave as when run alone"""
     rng = ctx.rng
-    rounds = 12 if ctx.thorough else 3
+    rounds = 20 if ctx.thorough else 6
     for rnd in range(rounds):
         n = rng.randrange(4, 9)
         jobs = []
@@ -857,8 +887,9 @@ def correspond(ctx, corr):
         if c.get('fault') and c['fault']['how'] == 'sig' and len(corr.samples) < 3:
             corr.sample({'case': describe(c), 'real': o['line'][:600]})
     corr.exhaustive = bool(ctx.thorough)
-    corr.extra['exhaustive_subspace'] = ('all shapes with 1..3 inputs over {.c,.s,.o} x every single fault point' if ctx.thorough
-                                         else 'all shapes with 1..2 inputs, a seeded sample of 3-input shapes and of the fault points')
+    corr.extra['exhaustive_subspace'] = ('all shapes with 1..3 inputs over {.c,.s,.o} x every single fault point x {exit 1, exit 3, '
+                                         'SIGSEGV, SIGKILL} x {output untouched, junk, removed}' if ctx.thorough
+                                         else 'all shapes with 1..3 inputs over {.c,.s,.o}; per shape a seeded sample of 7 fault points')
     if not corr.violations and not corr.disagreements:
         concurrency(ctx, corr, H)
     # a handful of witnesses is enough; every one of them is a replay file
